@@ -10,15 +10,16 @@ from harness.ns import QNAMES
 
 ID = "C12"
 LEVEL_TEXT = ("Lean 4 theorems about the executable model of the code (all inputs, by induction), tied to /repo by tables regenerated on every run (decide) and by differential execution of model and implementation; the property oracle is also run on the implementation for every case. window_correct is proved for every (limit, offset) and class against the specification's window reader; that an engine returns that row window is executed on SQLite only (LIMIT family).")
-LEAN_MODULES = ["Pypika.Props.C12", "Pypika.Props.Builder"]
+LEAN_MODULES = ["Pypika.Props.C12", "Pypika.Props.Builder", "Pypika.BuilderFrame"]
 TRACE_BUILDER = True   # builder calls made by this check are also run through Pypika.B.step (harness/trace.py)
 THEOREMS = ["Pypika.C12.window_correct", "Pypika.C12.limit_zero_kept", "Pypika.C12.mssql_offset_with_fetch",
             "Pypika.C12.setop_window_correct", "Pypika.C12.last_wins", "Pypika.C12.readNat_natText",
             # concrete builder model (Builder.lean, tied call by call through harness/trace.py)
             "Pypika.B.limit_last_wins", "Pypika.B.offset_last_wins", "Pypika.B.slice_is_offset_limit", "Pypika.B.limit_offset_commute", "Pypika.B.limit_zero_stored",
             # set-operation builder (Builder.lean stepS / mkSetOp, tied call by call through harness/trace.py)
-            "Pypika.B.setop_limit_last_wins", "Pypika.B.setop_offset_last_wins", "Pypika.B.setop_limit_zero_stored"]
-AGREE = ["Pypika.Agree.pagination", "Pypika.Agree.setop_pagination"]
+            "Pypika.B.setop_limit_last_wins", "Pypika.B.setop_offset_last_wins", "Pypika.B.setop_limit_zero_stored",
+            "Pypika.B.run_keeps_limit"]
+AGREE = ["Pypika.Agree.pagination", "Pypika.Agree.setop_pagination", "Pypika.Agree.writes_agree"]
 TRUSTED = [
     "Spec: pagination grammars of the three families (LIMIT n [OFFSET m]; [OFFSET m ROWS] [FETCH NEXT n ROWS ONLY]; "
     "ClickHouse LIMIT n [OFFSET m] BY (...) before LIMIT) as readWindow in Props/C12.lean and its Python twin below",
